@@ -28,7 +28,7 @@ ASSUMPTIONS = ["LP64: char 8, short 16, int 32, long/long long/Py_ssize_t/size_t
 
 # After the proposed fix proposed_fixes/C18-c_format_high_bits_not_rejected.diff is applied to /repo,
 # set this to "1": the model then uses the repaired range test (uchar_accepts true).
-UCHAR_FIXED = os.environ.get("C18_UCHAR_FIXED", "0")
+UCHAR_FIXED = os.environ.get("C18_UCHAR_FIXED", "1")
 
 TYPES = [("signed char", "schar", 8, True), ("unsigned char", "uchar", 8, False),
          ("short", "short", 16, True), ("unsigned short", "ushort", 16, False),
@@ -69,7 +69,7 @@ def values_for(nm, w, sg, rng, nrand):
 
 def fast_family(rng, n):
     out = ["", "d", "o", "x", "X", "c", "5", "05", "5d", "05d", ">5d", "-5d", ">05d", "-05d", "012x", ">12X", "3o", "030o",
-           "1d", "2d", "01d", "02x", "5c", "05c", ">3c", "0", "00d", "-", ">", "0005", "1c", "0x", "20d", "020d", "25o",
+           "1d", "2d", "01d", "02x", "5c", "05c", ">3c", "-5c", "0", "00d", "-", ">", "0005", "1c", "0x", "20d", "020d", "25o",
            "٥d", "٠٥d", "300c", "0300c", "252c"]
     while len(out) < n:
         s = rng.choice(["", "", ">", "-"]) + rng.choice(["", "", "0", "00"]) + \
@@ -292,6 +292,8 @@ TMPL_RE = re.compile(r"%([-0 +#]*)(\d*|\*)(?:\.(\d*))?([a-zA-Z%])")
 
 def classify_int(spec, ftype, pad, v, via):
     """class of a failing C-integer case, from the input only"""
+    if ftype == "c" and spec[:1] == "-":
+        return "c_format_sign_option_accepted"
     if ftype == "c" and v >= 0x200000:
         return "c_format_high_bits_not_rejected"
     if ftype in ("d", "o", "x", "X") and spec[:1] == ">" and pad == "0" and v < 0:
@@ -311,11 +313,17 @@ def classify_tmpl(tmpl, arg):
             cls.add("percent_str_width_left_aligned")
         if ty in "sra" and width.startswith("0") and len(width) > 1 and "-" not in flags:
             cls.add("percent_str_width_left_aligned")
+        if ty in "doxXiuf" and isinstance(arg, (int, float)) and \
+                type(arg).__format__ not in (int.__format__, float.__format__):
+            cls.add("percent_int_subclass_format_override")
+        if ty in "sra" and " " in flags:
+            cls.add("percent_space_flag_str_conversion")
         if ty in "oxXf" and not isinstance(arg, (int, float)):
             cls.add("percent_numeric_operand_type_error_kind")
         if ty in "oxX" and isinstance(arg, float):
             cls.add("percent_numeric_operand_type_error_kind")
-    for k in ("percent_minus_and_zero_flags", "percent_str_width_left_aligned", "percent_numeric_operand_type_error_kind"):
+    for k in ("percent_space_flag_str_conversion", "percent_int_subclass_format_override", "percent_minus_and_zero_flags", "percent_str_width_left_aligned",
+              "percent_numeric_operand_type_error_kind"):
         if k in cls:
             return k
     return "percent_template_wrong"
